@@ -12,6 +12,7 @@ def dispatch (line : String) : String :=
   | "argv" :: rest => Argv.Drv.handle rest
   | "cfg" :: rest => Config.Drv.handle rest
   | "client" :: rest => Client.Drv.handle rest
+  | "pidfile" :: rest => Pidfile.Drv.handle rest
   | "redir" :: rest => Redirector.Drv.handle rest
   | "signum" :: rest => Signum.Drv.handle rest
   | _ => "bad-op"
